@@ -767,6 +767,27 @@ Proof.
     repeat (apply zip_opt_ext; intros); apply H0.
 Qed.
 
+Lemma bzip_ext {A B X} (f g : A -> B -> option X) xs ys :
+  (forall a b, f a b = g a b) -> bzip f xs ys = bzip g xs ys.
+Proof.
+  intros H. unfold bzip.
+  destruct xs as [|a [|a' xs]]; destruct ys as [|b [|b' ys]];
+    rewrite ?(zip_opt_ext f g) by exact H; try reflexivity;
+    try (f_equal; apply map_ext; intros; apply H).
+Qed.
+
+Lemma tzip_bcast_same_ext {A B X} (f g : A -> B -> X) x y :
+  (forall a b, f a b = g a b) -> tzip_bcast_same f x y = tzip_bcast_same g x y.
+Proof.
+  intros H. assert (H0 : forall a b, Some (f a b) = Some (g a b)) by (intros; f_equal; apply H).
+  destruct x, y; cbn [tzip_bcast_same]; try reflexivity; try (rewrite H; reflexivity); f_equal;
+    repeat (apply bzip_ext; intros); apply H0.
+Qed.
+
+Lemma tzip_bcast_ext {A B X} (f g : A -> B -> X) x y :
+  (forall a b, f a b = g a b) -> tzip_bcast f x y = tzip_bcast g x y.
+Proof. intros H. unfold tzip_bcast. apply tzip_bcast_same_ext, H. Qed.
+
 Theorem conj_is (x : tens C) : conj ROps x = tmap Cconj x.
 Proof. reflexivity. Qed.
 Theorem absolute_value_is (x : tens C) : absolute_value ROps x = tmap Cmod x.
@@ -783,10 +804,11 @@ Proof. unfold scalar_divide. rewrite inverse_is. reflexivity. Qed.
 Theorem elementwise_division_is (x y : tens C) :
   elementwise_division ROps x y = of_opt ValueErr (tzip_strict Cdiv x y).
 Proof. unfold elementwise_division. f_equal. apply tzip_strict_ext, cediv_is_Cdiv. Qed.
+(* numpy broadcasts the two real arguments; pointwise e^z / (1 + e^z) *)
 Theorem sigmoid_is (x y : tens R) :
   sigmoid ROps x y =
-  of_opt ValueErr (tzip_strict (fun a b => Cdiv (Cexp (a, b)) (Cplus (RtoC 1) (Cexp (a, b)))) x y).
-Proof. unfold sigmoid. f_equal. apply tzip_strict_ext, csigmoid_is. Qed.
+  of_opt ValueErr (tzip_bcast (fun a b => Cdiv (Cexp (a, b)) (Cplus (RtoC 1) (Cexp (a, b)))) x y).
+Proof. unfold sigmoid. f_equal. apply tzip_bcast_ext, csigmoid_is. Qed.
 
 (* what the traversals mean on vectors and matrices *)
 Lemma zip_opt_some {A B X} (g : A -> B -> option X) (h : A -> B -> X) xs ys :
@@ -1022,14 +1044,21 @@ Proof. unfold upd. rewrite Nat.eqb_refl. reflexivity. Qed.
 Lemma upd_other (h : @heap R) s v s' : s' <> s -> upd h s v s' = h s'.
 Proof. intros H. unfold upd. apply Nat.eqb_neq in H. rewrite H. reflexivity. Qed.
 
+Lemma wr_re_vec (f : R -> R -> R) (p : list R) (o o' : list C) :
+  zip_opt (fun n o => Some (f (fst o) n, snd o)) p o = Some o' -> wr_re f (T1 p) (T1 o) = Some (T1 o').
+Proof. intros E. unfold wr_re. cbn [tzip_strict]. change (@cx R) with C. rewrite E. reflexivity. Qed.
+Lemma wr_im_vec (f : R -> R -> R) (p : list R) (o o' : list C) :
+  zip_opt (fun n o => Some (fst o, f (snd o) n)) p o = Some o' -> wr_im f (T1 p) (T1 o) = Some (T1 o').
+Proof. intros E. unfold wr_im. cbn [tzip_strict]. change (@cx R) with C. rewrite E. reflexivity. Qed.
+
 Lemma out_step_vec (h : @heap R) out (g : R -> C -> C) w a b os :
-  (forall p o, w (T1 p) (T1 o) = option_map T1 (zip_opt (fun n o => Some (g n o)) p o)) ->
+  (forall p o o', zip_opt (fun n o => Some (g n o)) p o = Some o' -> w (T1 p) (T1 o) = Some (T1 o')) ->
   h (b_store out) = T1 os -> length a = length b -> length os = length a ->
   out_step ROps h out w (T1 a) (T1 b) = Some (upd h (b_store out) (T1 (zipw g (zipw Rmult a b) os))).
 Proof.
   intros Hw Ho Hab Hos. unfold out_step, tzip_bcast. cbn [trank Nat.max tpromote Nat.ltb Nat.leb tzip_bcast_same].
   rewrite (bzip_same_length _ Rmult) by (intros; reflexivity || exact Hab). cbn [option_map].
-  rewrite Ho, Hw. rewrite (zip_opt_some _ g); [reflexivity | intros; reflexivity |].
+  rewrite Ho. erewrite Hw; [reflexivity|]. apply (zip_opt_some _ g); [intros; reflexivity|].
   rewrite zipw_length, <- Hab, Nat.min_id. symmetry; exact Hos.
 Qed.
 
@@ -1063,25 +1092,25 @@ Proof.
   assert (Lo : forall (f : C -> R) (o' : list C), length o' = length os -> length o' = length (map f xs))
     by (intros f o' Ho'; rewrite map_length; etransitivity; [exact Ho' | exact Los]).
   rewrite Hx, Hy. cbn [treal timag tmap].
-  rewrite (out_step_vec h out (fun n o => (n, snd o)) _ _ _ os); [| intros; reflexivity | exact Ho | apply Lm | apply Lo; reflexivity].
+  rewrite (out_step_vec h out (fun n o => (n, snd o)) _ _ _ os); [| exact (wr_re_vec (@keep_new R)) | exact Ho | apply Lm | apply Lo; reflexivity].
   set (h1 := upd h _ _).
   assert (H1x : h1 (b_store x) = T1 xs) by (unfold h1; rewrite upd_other by exact Sx'; exact Hx).
   assert (H1y : h1 (b_store y) = T1 ys) by (unfold h1; rewrite upd_other by exact Sy'; exact Hy).
   rewrite H1x, H1y. cbn [treal timag tmap].
   erewrite (out_step_vec h1 out (fun n o => (fst o - n, snd o)));
-    [| intros; reflexivity | apply upd_same | apply Lm | apply Lo; rewrite zipw_length, zipw_length, !map_length; unfold cx, C in *; lia].
+    [| exact (wr_re_vec Rminus) | apply upd_same | apply Lm | apply Lo; rewrite zipw_length, zipw_length, !map_length; unfold cx, C in *; lia].
   set (h2 := upd h1 _ _).
   assert (H2x : h2 (b_store x) = T1 xs) by (unfold h2; rewrite upd_other by exact Sx'; exact H1x).
   assert (H2y : h2 (b_store y) = T1 ys) by (unfold h2; rewrite upd_other by exact Sy'; exact H1y).
   rewrite H2x, H2y. cbn [treal timag tmap].
   erewrite (out_step_vec h2 out (fun n o => (fst o, n)));
-    [| intros; reflexivity | apply upd_same | apply Lm | apply Lo; rewrite !zipw_length, !map_length; unfold cx, C in *; lia].
+    [| exact (wr_im_vec (@keep_new R)) | apply upd_same | apply Lm | apply Lo; rewrite !zipw_length, !map_length; unfold cx, C in *; lia].
   set (h3 := upd h2 _ _).
   assert (H3x : h3 (b_store x) = T1 xs) by (unfold h3; rewrite upd_other by exact Sx'; exact H2x).
   assert (H3y : h3 (b_store y) = T1 ys) by (unfold h3; rewrite upd_other by exact Sy'; exact H2y).
   rewrite H3x, H3y. cbn [treal timag tmap].
   erewrite (out_step_vec h3 out (fun n o => (fst o, snd o + n)));
-    [| intros; reflexivity | apply upd_same | apply Lm | apply Lo; rewrite !zipw_length, !map_length; unfold cx, C in *; lia].
+    [| exact (wr_im_vec Rplus) | apply upd_same | apply Lm | apply Lo; rewrite !zipw_length, !map_length; unfold cx, C in *; lia].
   eexists. split; [reflexivity|]. split.
   - rewrite upd_same. f_equal. apply four_writes; assumption.
   - intros s Hs. rewrite upd_other by exact Hs. unfold h3. rewrite upd_other by exact Hs.
@@ -1190,4 +1219,31 @@ Theorem inner_prod_rejects_length (u v : list C) :
   length u <> length v -> inner_prod ROps (T1 u) (T1 v) = RuntimeErr.
 Proof.
   intros H. rewrite inner_prod_vectors. apply Nat.eqb_neq in H. rewrite H. reflexivity.
+Qed.
+
+(* ------------------------------------------------------------------ sigmoid: numpy broadcasting of the two real arguments *)
+Local Notation Csig := (fun a b : R => Cdiv (Cexp (a, b)) (Cplus (RtoC 1) (Cexp (a, b)))).
+Theorem sigmoid_vectors (x y : list R) :
+  length x = length y -> sigmoid ROps (T1 x) (T1 y) = Ok (T1 (zipw Csig x y)).
+Proof.
+  intros Hl. rewrite sigmoid_is. unfold tzip_bcast. cbn [trank Nat.max tpromote Nat.ltb Nat.leb tzip_bcast_same].
+  rewrite (bzip_same_length _ Csig) by (intros; reflexivity || exact Hl). reflexivity.
+Qed.
+Theorem sigmoid_broadcast_left (a : R) (y : list R) :
+  sigmoid ROps (T1 [a]) (T1 y) = Ok (T1 (map (Csig a) y)) /\ sigmoid ROps (T0 a) (T1 y) = Ok (T1 (map (Csig a) y)).
+Proof.
+  split; rewrite sigmoid_is; unfold tzip_bcast; cbn [trank Nat.max tpromote Nat.ltb Nat.leb tlift tzip_bcast_same];
+    rewrite (bzip_left_one _ (Csig a)) by (intros; reflexivity); reflexivity.
+Qed.
+Theorem sigmoid_broadcast_right (x : list R) (b : R) :
+  sigmoid ROps (T1 x) (T1 [b]) = Ok (T1 (map (fun a => Csig a b) x)).
+Proof.
+  rewrite sigmoid_is. unfold tzip_bcast. cbn [trank Nat.max tpromote Nat.ltb Nat.leb tlift tzip_bcast_same].
+  rewrite (bzip_right_one _ Csig) by (intros; reflexivity). reflexivity.
+Qed.
+Theorem sigmoid_rejects_non_broadcastable (x y : list R) :
+  length x <> length y -> length x <> 1%nat -> length y <> 1%nat -> sigmoid ROps (T1 x) (T1 y) = ValueErr.
+Proof.
+  intros. rewrite sigmoid_is. unfold tzip_bcast. cbn [trank Nat.max tpromote Nat.ltb Nat.leb tzip_bcast_same].
+  rewrite bzip_mismatch by assumption. reflexivity.
 Qed.
